@@ -336,7 +336,7 @@ func (g *goGen) expr(e Expr) string {
 				return fmt.Sprintf("govcIte(%s, %s, %s)", g.expr(n.Args[0]), g.expr(n.Args[1]), g.expr(n.Args[2]))
 			case "len", "cap":
 				return id.Name + "(" + g.expr(n.Args[0]) + ")"
-			case "cnt", "when", "arg", "clk", "fresh", "ref", "off", "haskey", "mapobj", "typeis", "dyn", "asptr", "isptr", "ptr":
+			case "cnt", "when", "arg", "clk", "fresh", "ref", "off", "haskey", "mapobj", "typeis", "dyn", "asptr", "isptr", "ptr", "rawat":
 				return g.fail("contract uses ghost/heap construct " + id.Name + " that has no executable counterpart")
 			}
 			if pd, ok := g.eng.cs.Preds[id.Name]; ok {
